@@ -420,18 +420,25 @@ class Store:
         return all(c % m == 0 for _, c in e.t) and e.k % m == 0
 
     def lower_bound(self, e, lo=-(1 << 70), hi=(1 << 70)):
-        """greatest integer b with store |= e >= b, searched in [lo, hi]; None if unbounded below lo"""
-        # binary search on b:  e >= b  <=>  b - e <= 0
-        if not self.entails_le(LinExpr.const(lo) - e):
+        """greatest integer b with store |= e >= b (None if unbounded below `lo`);
+        one Fourier-Motzkin projection instead of a binary search"""
+        if self.unsat:
+            return hi
+        e = self.nf(e)
+        if not e.t:
+            return e.k if e.k >= lo else None
+        key = ('lb', e)
+        if key in self._cache:
+            r = self._cache[key]
+        else:
+            rows = self._cone(e.syms())
+            r = fm_lower_bound(rows, e)
+            self._cache[key] = r
+        if r == 'unsat':
+            return hi
+        if r is None or r < lo:
             return None
-        a, b = lo, hi
-        while a < b:
-            mid = (a + b + 1) // 2
-            if self.entails_le(LinExpr.const(mid) - e):
-                a = mid
-            else:
-                b = mid - 1
-        return a
+        return min(r, hi)
 
     def upper_bound(self, e, lo=-(1 << 70), hi=(1 << 70)):
         r = self.lower_bound(-e, -hi, -lo)
@@ -450,62 +457,138 @@ class Store:
         return f"Store[{'UNSAT ' if self.unsat else ''}{eq} | {le} | {ne}]"
 
 
-FM_ROW_CAP = 4000
+FM_ROW_CAP = 3000
 
 
-def fm_unsat(rows):
-    """Is the conjunction of rows (each e <= 0) unsatisfiable over the rationals
-    (with gcd integer tightening applied to derived rows)?"""
-    # dedupe
-    rows = list({r for r in rows})
+def _norm_row(d, k):
+    """row sum(d)+k <= 0 -> gcd-normalised, integer-tightened (terms tuple, k) or True/False"""
+    if not d:
+        return k <= 0
+    g = 0
+    for c in d.values():
+        g = gcd(g, abs(c))
+    if g > 1:
+        d = {s: c // g for s, c in d.items()}
+        k = -((-k) // g)
+    return (tuple(sorted(d.items())), k)
+
+
+def fm_eliminate(rows, keep=()):
+    """Fourier-Motzkin projection of rows (LinExpr e meaning e <= 0) onto `keep` symbols.
+    Returns (unsat: bool, projected rows as list of (terms, k)) ; gives up (returns (False, None))
+    when the row count explodes.  Uses Kohler's history rule and dominance pruning."""
+    keep = set(keep)
+    # rows: dict terms -> (k, hist)
+    cur = {}
+    idx = 0
     for r in rows:
-        if not r.t and r.k > 0:
-            return True
+        if not r.t:
+            if r.k > 0:
+                return True, []
+            continue
+        old = cur.get(r.t)
+        if old is None or r.k > old[0]:
+            cur[r.t] = (r.k, frozenset([idx]))
+        idx += 1
+    nelim = 0
     while True:
-        # collect symbols
         occ = {}
-        for r in rows:
-            for s, c in r.t:
-                p = occ.setdefault(s, [0, 0])
+        for t in cur:
+            for s, c in t:
+                if s in keep:
+                    continue
+                p = occ.get(s)
+                if p is None:
+                    p = occ[s] = [0, 0]
                 if c > 0:
                     p[0] += 1
                 else:
                     p[1] += 1
         if not occ:
-            return any(r.k > 0 for r in rows)
-        # eliminate a symbol with minimal pos*neg product (pure ones first)
+            break
         best, bestc = None, None
         for s, (p, n) in occ.items():
             cost = p * n - (p + n)
             if bestc is None or cost < bestc:
                 best, bestc = s, cost
         s = best
-        pos, neg, rest = [], [], []
-        for r in rows:
-            c = r.coeff(s)
+        pos, neg, new = [], [], {}
+        for t, (k, h) in cur.items():
+            c = 0
+            for x, y in t:
+                if x == s:
+                    c = y
+                    break
             if c > 0:
-                pos.append((c, r))
+                pos.append((c, t, k, h))
             elif c < 0:
-                neg.append((-c, r))
+                neg.append((-c, t, k, h))
             else:
-                rest.append(r)
-        new = set(rest)
-        for cp, rp in pos:
-            for cn, rn in neg:
-                # cn*rp + cp*rn eliminates s
+                new[t] = (k, h)
+        nelim += 1
+        for cp, tp, kp, hp in pos:
+            for cn, tn, kn, hn in neg:
+                h = hp | hn
+                if len(h) > nelim + 1:
+                    continue            # Kohler: redundant
                 g = gcd(cp, cn)
-                e = rp * (cn // g) + rn * (cp // g)
-                n = norm_le(e)
+                a, b = cn // g, cp // g
+                d = {}
+                for x, y in tp:
+                    if x != s:
+                        d[x] = y * a
+                for x, y in tn:
+                    if x != s:
+                        v = d.get(x, 0) + y * b
+                        if v:
+                            d[x] = v
+                        else:
+                            d.pop(x, None)
+                n = _norm_row(d, kp * a + kn * b)
                 if n is True:
                     continue
                 if n is False:
-                    return True
-                new.add(n)
+                    return True, []
+                t2, k2 = n
+                old = new.get(t2)
+                if old is None or k2 > old[0]:
+                    new[t2] = (k2, h)
         if len(new) > FM_ROW_CAP:
-            return False   # give up: not proved
-        rows = list(new)
-        if not rows:
-            return False
+            return False, None
+        cur = new
+        if not cur:
+            break
+    return False, [(t, k) for t, (k, h) in cur.items()]
+
+
+def fm_unsat(rows):
+    u, _ = fm_eliminate(rows)
+    return u
+
+
+def fm_lower_bound(rows, e):
+    """greatest rational-relaxation lower bound (rounded up to an integer) of e under rows,
+    or None if unbounded / gave up.  Returns 'unsat' when rows are unsatisfiable."""
+    t = fresh('opt')
+    eq = e - LinExpr.var(t)
+    rs = list(rows) + [eq, -eq]
+    u, proj = fm_eliminate(rs, keep=(t,))
+    if u:
+        return 'unsat'
+    if proj is None:
+        return None
+    best = None
+    for terms, k in proj:
+        # c*t + k <= 0
+        if len(terms) != 1:
+            continue
+        c = terms[0][1]
+        if c < 0:
+            # -|c| t + k <= 0  ->  t >= k/|c|
+            lb = -((-k) // (-c))       # ceil(k/|c|)
+            if best is None or lb > best:
+                best = lb
+    return best
 
 
 if __name__ == '__main__':
